@@ -77,7 +77,7 @@ private def exPlan : PlanEnv :=
 private def exEnv : EffEnv :=
   { plan := exPlan, output := fun _ => [],
     branchMatches := fun _ => [fun g => if g == "is_current" then some ['*'] else if g == "remote" then some ['o'] else none],
-    excText := [], osErrno := 0 }
+    excText := [], excStderr := [], osErrno := 0 }
 example : RemoteCoherent exEnv := ⟨by decide, by decide, by decide⟩
 
 end BV
